@@ -15,8 +15,7 @@ mbtvars == <<vars, hist, names, head>>
 MBTInit == Init /\ hist = <<>> /\ names = (ZeroRoot :> 0) /\ head = ZeroRoot
 
 R(S) == IF S = {} THEN {} ELSE {RandomElement(S)}
-Present(c) == {[t |-> t, k |-> k, v |-> c[t][k]] : t \in {x \in Tries : TRUE}, k \in {y \in Keys : TRUE}} 
-Pres(c) == {e \in Present(c) : e.v # 0}
+Pres(c) == {e \in {[t |-> t, k |-> k, v |-> c[t][k]] : t \in Tries, k \in Keys} : e.v # 0}
 Changed(c0, c1) == {[t |-> t, k |-> k, v |-> c1[t][k]] : t \in Tries, k \in Keys} \ {[t |-> t, k |-> k, v |-> c0[t][k]] : t \in Tries, k \in Keys}
 
 KnownContents == {r.c : r \in {x \in DOMAIN names : x.ok}}
